@@ -184,7 +184,7 @@ def RoomSt.init (size : Nat) : RoomSt :=
 def roomBuild (P : Params) (ep : Nat → Nat × Nat) : List Nat → Nat → Option Nat → RoomSt → Except Err RoomSt
   | [], _, _, s => .ok s
   | x :: xs, n, last, s =>
-    if x ≥ P.edgeMask then .error .tooBig
+    if x > P.edgeMask then .error .tooBig
     else if notAsc last x then .error .notAscending
     else
       let u := (ep x).1
